@@ -275,7 +275,9 @@ def run(ctx):
         # SQLSTATE of the rejection kind
         ss = prog.one(r"errorcodes::ErrorKind::sqlstate$")
         from engines import tables
-        stab, _open = tables.value_table(ss, lambda t: isinstance(t, tuple) and t[0] == "discr" and T.is_param(T.peel(t[1]), 1))
+        ek_ = [a for k_, a in prog.adts.items() if k_.endswith("errorcodes::ErrorKind")]
+        stab, _open = tables.value_table(ss, lambda t: isinstance(t, tuple) and t[0] == "discr" and T.is_param(T.peel(t[1]), 1),
+                                         universe={int(v["discr"]) for v in ek_[0]["variants"]} if ek_ else None)
         st = sorted({T.const_bytes(T.peel(rv)) for rv in stab.get(H.ACCESS_DENIED[0], [])}, key=lambda x: x or b"")
         ctx.ob("C11.gate", st == [H.ACCESS_DENIED[1]], "SQLSTATE of code 1045 is %s (need 28000)" % st, fn=ss.path, construct="sqlstate-1045", nontrivial=False)
 
